@@ -249,18 +249,21 @@ def run(rep, tier, seed, replay=None):
     ndis = 0
     width_hits = set(); splits = {"aligned": 0, "unaligned": 0, "growth": 0, "past_end": 0, "exact_end": 0}
     for i, (kind, c) in enumerate(cases):
-        cl = cout[i] if i < len(cout) else "<no output: harness died>"
+        cl = cout[i] if i < len(cout) - 1 else "<no output: harness died>"
         ml = mout[i] if i < len(mout) else "<no output>"
         rep.count((kind, lines[i]))
         if i % 4001 == 0:
             rep.sample({"case": lines[i][:300], "impl": cl[:200], "model": ml[:200]})
-        if kind == "W":
+        if cl.startswith("<no output"):
+            fail = "the library crashed or was stopped by the sanitizer on this case: " + " | ".join(l for l in cerr.split("\n") if "ERROR" in l or "SUMMARY" in l or "runtime error" in l)[:400]
+            same = False
+        elif kind == "W":
             fail = oracle_w(c, cl)
             same = canon_w(cl) == canon_w(ml)
             if len(cl.split()) > 2 and int(cl.split()[2], 16) != c[0]:
                 splits["growth"] += 1
         else:
-            fail = oracle_r(c, cl) if not cl.startswith("<") else "harness died (sanitizer / crash)"
+            fail = oracle_r(c, cl)
             try:
                 same = canon_r(cl) == canon_r(ml)
             except Exception:
@@ -279,7 +282,7 @@ def run(rep, tier, seed, replay=None):
                           {"kind": "bitio", "correspondence": "BitIO.putbits/getbits/skip_bits vs bufr_io.c", "case": lines[i], "impl": cl, "model": ml, **rc_key},
                           no_input=True)
             ndis += 1
-        if ndis > 20:
+        if ndis > 20 or cl.startswith("<no output"):
             break
     if sanitizer and not rep.violations:
         rep.violation("C11: sanitizer report while running the bit-I/O cases: " + cerr[-600:],
